@@ -34,8 +34,62 @@ def one(ctx, hdir, test, transcript, n, what):
     return L.parse_cases(impl)
 
 
+def names_on_the_wire(ctx):
+    """the names the pools actually see: (a) shares forwarded in the mining phase (session harness, judged by the
+    session monitor's name clause), (b) the authorize sent to the pool in the handshake incl. contract
+    connections (C15 harness, compared with Model/Handshake.lean whose credentials are Model/Cred.lean's)"""
+    exe = L.build_harness(ctx, "proxy")
+    if not exe:
+        return 0
+    quick = ctx.tier == "quick"
+    n_sess = 0
+    # (a)
+    rc, out = L.run_harness(ctx, exe, "TestVerifSession$", env={"VERIF_N": 200 if quick else 3000, "VERIF_MAXOPS": 30 if quick else 60}, timeout=1500)
+    if rc != 0:
+        ctx.tie_failures.append("session harness run failed (rc=%d): %s" % (rc, out[-400:]))
+    else:
+        cases = L.parse_cases(ctx.out + "/sess.impl.txt")
+        n_sess += len(cases)
+        bycase = dict(cases)
+        for case, c in L.run_monitor(ctx, "sess", "sess.impl.txt"):
+            body, _, op = c.partition(" @ ")
+            if "under the name" not in body:
+                continue
+            ops = []
+            for l in bycase.get(case, []):
+                if l.startswith("> "):
+                    ops.append(l)
+                    if l[2:] == op:
+                        break
+            L.violation(ctx, "c17:share-forwarded-under-a-name-the-connection-was-not-authorised-with", body[4:] + " @ " + op,
+                        {"clause": body[4:], "case": case, "ops": ops, "how_to_replay": "bin/check C02 --replay <this file> (same session harness)"})
+            break
+    # (b)
+    rc, out = L.run_harness(ctx, exe, "TestVerifC15$", env={"VERIF_N": 300 if quick else 6000, "VERIF_FLUSH": 1})
+    if rc != 0:
+        ctx.tie_failures.append("handshake harness run failed (rc=%d): %s" % (rc, out[-400:]))
+    else:
+        impl = ctx.out + "/c15.impl.txt"
+        model = impl + ".model.txt"
+        rc, err = L.drv("model", "c15", impl, model)
+        if rc != 0:
+            ctx.tie_failures.append("driver model c15 failed: " + err[-200:])
+        else:
+            n_sess += len(L.parse_cases(impl))
+            for d in L.diff_cases(impl, model):
+                if " authorize " in d["impl"] and " authorize " in d["other"] and "user=" in d["impl"]:
+                    op = L.last_op_before(d["lines"], d["first"])
+                    ops = [l for l in d["lines"][:d["first"] + 1] if l.startswith("> ")]
+                    what = "after %s: the pool was sent %r, the credentials of its destination are %r" % (op[2:], d["impl"], d["other"])
+                    L.violation(ctx, "c17:authorize-sent-to-the-pool-with-other-credentials-than-its-destinations", what,
+                                {"clause": what, "case": d["header"], "ops": ops, "how_to_replay": "bin/check C15 --replay <this file> (same handshake harness)"})
+                    break
+    return n_sess
+
+
 def run(ctx):
     ctx.trusted_base += [
+        "names on the wire: the session harness (C02-C04) and the handshake harness (C15) are run as well; a share forwarded under a name the pool connection was not authorised with (session monitor) and an authorize whose user / password differ from Model/Cred.lean's for that destination (handshake correspondence) are violations of this property",
         "correspondence harnesses harness/proxy/verif_c17_test.go (lib.CopyURL/SetUserName/SetWorkerName/SplitUsername, getDestUserName, shouldPropagateWorkerName, isContractAddress) and harness/contract/verif_c17_test.go (getAdjustedDest of a real seller watcher)",
         "modelled, not verified: Model/Cred.lean; net/url parsing and escaping (the harness hands the model the parsed components)",
     ]
@@ -46,6 +100,7 @@ def run(ctx):
     n = 3000 if ctx.tier == "quick" else 200000
     cases = one(ctx, "proxy", "TestVerifC17$", "c17.impl.txt", n, "credential function")
     cases += one(ctx, "contract", "TestVerifC17Adjusted$", "c17adj.impl.txt", n // 5, "contract destination")
+    n_wire = names_on_the_wire(ctx)
     ops = {}
     distinct = set()
     for h, lines in cases:
@@ -56,11 +111,35 @@ def run(ctx):
     ctx.coverage.update({
         "evaluations": sum(ops.values()), "distinct_nontrivial": len(distinct),
         "rule": "miner names (no dot, empty parts, several dots, 40-hex with/without 0x/0X, 39-hex, non-hex, '@') x destination URLs (no user-info, empty user, user with/without password, empty password, escapes, '@' in user, pplp hosts in different positions and cases, paths/queries/fragments) x both flag values; every op compares one real function with the model. Distinct = distinct op lines; every op is non-trivial",
-        "ops": ops, "traces_validated_against_impl": len(cases),
+        "ops": ops, "traces_validated_against_impl": len(cases), "sessions_and_handshakes_checked_for_names_on_the_wire": n_wire,
     })
     ctx.samples += [{"case": h, "lines": lines[:4]} for h, lines in cases[:2]]
 
 
 def replay(ctx, path):
-    print("C17 ops are pure function calls: rerun bin/check C17 with the same VERIF_SEED; the failing op is in the replay file")
+    import json, os
+    rp = json.load(open(path))
+    sig = rp.get("signature", "")
+    if sig.startswith("c17:authorize-sent"):
+        return L.generic_replay(ctx, path, "proxy", "TestVerifC15$", "c15", "c15.impl.txt")
+    if sig.startswith("c17:share-forwarded"):
+        ops = [o[2:] if o.startswith("> ") else o for o in rp.get("ops", [])]
+        exe = L.build_harness(ctx, "proxy")
+        if not exe or not L.build_driver(ctx):
+            print("cannot build harness/driver: %s" % ctx.tie_failures)
+            return 2
+        d = ctx.out + "/shrink"
+        os.makedirs(d, exist_ok=True)
+        open(d + "/ops.txt", "w").write("\n".join(ops) + "\n")
+        e = L.go_env({"VERIF_OUT": d, "VERIF_SEED": ctx.seed, "VERIF_REPLAY_OPS": d + "/ops.txt"})
+        L.sh([exe, "-test.run", "TestVerifSession$", "-test.timeout", "60s"], cwd=d, env=e, timeout=90)
+        t = d + "/sess.impl.txt"
+        print(open(t).read() if os.path.exists(t) else "")
+        L.drv("monitor", "sess", t, d + "/mon.txt")
+        mon = open(d + "/mon.txt").read()
+        hit = [l for l in mon.split("\n") if "under the name" in l]
+        print("\n".join(hit))
+        print("REPLAY: %s" % ("the violation reproduces" if hit else "no violation"))
+        return 1 if hit else 0
+    print("this C17 op is a pure function call: the failing op, the implementation's and the model's answers are in the replay file; rerun bin/check C17 with the same VERIF_SEED")
     return 0
